@@ -1,6 +1,11 @@
 import NanoVerif.Gen.Flags
 import NanoVerif.Proofs.C06Enet
 import NanoVerif.Proofs.C06Deriv
+import NanoVerif.Proofs.C06GradFn2
+import NanoVerif.Proofs.C06GradLoss
+import NanoVerif.Proofs.C06GradComp
+import NanoVerif.Proofs.C06GradKink3
+import NanoVerif.Proofs.C06Maxquad
 /-!
   C06 — values, gradients and convexity flags of functions, losses and constraints are truthful.
 
@@ -9,6 +14,11 @@ import NanoVerif.Proofs.C06Deriv
   piecewise-polynomial kernels (with an arbitrary, unused `Transc α`), over `ℝ` where exp / log / atan occur.
   `X_subgrad` is the inequality of the statement, `f(z) ≥ f(x) + g(x)·(z − x) (+ μ/2 ‖z − x‖²)`, for the value `f` and the
   (sub-)gradient `g` the code returns, for ALL points `x`, `z` of the right dimension.
+  `X_hasDerivAt_line` is the first clause of the statement, "the returned (sub)gradient is the derivative of the returned
+  value": `HasDerivAt (fun t => f (x + t • d)) (g(x)·d) 0` for ALL `x`, `d` — unconditional for the objects that declare
+  themselves smooth, at every point off the kinks / ties (`…_off_kinks`, `…_off_ties`) for the others.
+  `flags_covered` / `smooth_covered` / `gradient_covered` / `strong_covered` tie the theorems to the flags the implementation
+  declares (`Gen/Flags.lean`, regenerated on every run).
 -/
 set_option linter.unusedSectionVars false
 set_option linter.unusedVariables false
@@ -254,6 +264,18 @@ theorem quadratic_subgrad (a : List α) (A : List (List α)) (x z : List α) (n 
     rw [dot_vadd_left _ _ _ (by rw [mulVec_length, ha, hA]), dot_vadd_left _ _ _ (by rw [mulVec_length, ha, hA])]; ring
   rw [e2]; exact h
 
+/-- MAXQUAD `max_k x·(A_k x − b_k)` with the gradient `2 A_k x − b_k` of the first maximal `k`: convex under the hypothesis
+    that every `A_k` is self-adjoint and positive semi-definite (the constructor fills symmetric, diagonally dominant
+    matrices with a positive diagonal from exp/cos/sin formulas; the harness recomputes them and hands them to the model) -/
+theorem maxquad_subgrad (As : List (List (List α))) (bs : List (List α)) (x z : List α) (n : Nat)
+    (hne : As ≠ []) (hl : As.length = bs.length)
+    (hA : ∀ A ∈ As, A.length = n ∧
+      (∀ u v : List α, u.length = n → v.length = n → dot u (mulVec A v) = dot v (mulVec A u)) ∧
+      (∀ d : List α, d.length = n → 0 ≤ dot d (mulVec A d)))
+    (hb : ∀ b ∈ bs, b.length = n) (hx : x.length = n) (hz : z.length = n) :
+    maxquadF As bs z ≥ maxquadF As bs x + dot (maxquadG As bs x) (vsub z x) :=
+  maxquad_aux As bs x z n hne hl hA hb hx hz
+
 /-- MAXQ `max_i x_i²` with the gradient of the first maximal coordinate -/
 theorem maxq_subgrad (x z : List α) (hne : x ≠ []) (hl : z.length = x.length) :
     maxqF z ≥ maxqF x + dot (maxqG x) (vsub z x) := maxq_aux x z hne hl
@@ -395,11 +417,283 @@ theorem cauchy_hasDerivAt (t o : ℝ) : HasDerivAt (fun o => 1 / 2 * cauchyV t o
 theorem savage_hasDerivAt (t o : ℝ) : HasDerivAt (fun o => savageV t o) (savageG t o) o := savage_deriv t o
 theorem tangent_hasDerivAt (t o : ℝ) : HasDerivAt (fun o => tangentV t o) (tangentG t o) o := tangent_deriv t o
 
+/-! ## the returned gradient is the derivative of the returned value along EVERY line
+
+  `line x d t = x + t • d` (`Proofs/C06Line.lean`). For a value `f` and the gradient `g` the code returns with it,
+
+      HasDerivAt (fun t : ℝ => f (line x d t)) (dot (g x) d) 0        for all x, d of the dimension of f
+
+  says that the directional derivative at `x` along `d` exists and is `g(x)·d` — the exact statement whose two sides
+  the central differences along random directions of the oracle estimate. All smooth benchmark functions (convex or
+  not), all smooth losses as functions of the prediction vector, all smooth constraint kinds. -/
+
+/-- the statement at `t = 0` for all points gives the derivative at every `t₀` of the line (at the point `x + t₀ d`) -/
+theorem hasDerivAt_line_everywhere (f : List ℝ → ℝ) (g : List ℝ → List ℝ)
+    (h : ∀ x d : List ℝ, d.length = x.length → HasDerivAt (fun t : ℝ => f (line x d t)) (dot (g x) d) 0)
+    (x d : List ℝ) (hd : d.length = x.length) (t0 : ℝ) :
+    HasDerivAt (fun t : ℝ => f (line x d t)) (dot (g (line x d t0)) d) t0 :=
+  line_deriv_at f x d t0 _ hd (h (line x d t0) d (by rw [line_length x d t0 hd, hd]))
+
+/-! ### benchmark functions declared smooth -/
+
+theorem sphere_hasDerivAt_line (x d : List ℝ) (hd : d.length = x.length) :
+    HasDerivAt (fun t : ℝ => sphereF (line x d t)) (dot (sphereG x) d) 0 := sphere_grad x d hd
+
+theorem axis_ellipsoid_hasDerivAt_line (x d : List ℝ) (hd : d.length = x.length) :
+    HasDerivAt (fun t : ℝ => axisF (line x d t)) (dot (axisG x) d) 0 := axis_grad x d hd
+
+theorem schumer_steiglitz_hasDerivAt_line (x d : List ℝ) (hd : d.length = x.length) :
+    HasDerivAt (fun t : ℝ => schumerF (line x d t)) (dot (schumerG x) d) 0 := schumer_grad x d hd
+
+/-- non-convex -/
+theorem qing_hasDerivAt_line (x d : List ℝ) (hd : d.length = x.length) :
+    HasDerivAt (fun t : ℝ => qingF (line x d t)) (dot (qingG x) d) 0 := qing_grad x d hd
+
+/-- non-convex -/
+theorem styblinski_tang_hasDerivAt_line (x d : List ℝ) (hd : d.length = x.length) :
+    HasDerivAt (fun t : ℝ => styblinskiF (line x d t)) (dot (styblinskiG x) d) 0 := styblinski_grad x d hd
+
+theorem chung_reynolds_hasDerivAt_line (x d : List ℝ) (hd : d.length = x.length) :
+    HasDerivAt (fun t : ℝ => chungF (line x d t)) (dot (chungG x) d) 0 := chung_grad x d hd
+
+theorem sargan_hasDerivAt_line (x d : List ℝ) (hd : d.length = x.length) :
+    HasDerivAt (fun t : ℝ => sarganF (line x d t)) (dot (sarganG x) d) 0 := sargan_grad x d hd
+
+theorem zakharov_hasDerivAt_line (x d : List ℝ) (hd : d.length = x.length) :
+    HasDerivAt (fun t : ℝ => zakharovF (line x d t)) (dot (zakharovG x) d) 0 := zakharov_grad x d hd
+
+/-- `exp(1 + ‖x‖²/n)` (for `n = 0` the model divides by zero as the code would; the statement still holds) -/
+theorem exponential_fn_hasDerivAt_line (x d : List ℝ) (hd : d.length = x.length) :
+    HasDerivAt (fun t : ℝ => expfnF (line x d t)) (dot (expfnG x) d) 0 := expfn_grad x d hd
+
+/-- non-convex; `log1p(‖x‖²)`: the argument of the logarithm is `≥ 1`, no hypothesis is needed -/
+theorem cauchy_fn_hasDerivAt_line (x d : List ℝ) (hd : d.length = x.length) :
+    HasDerivAt (fun t : ℝ => Fn.cauchyF (line x d t)) (dot (Fn.cauchyG x) d) 0 := cauchyfn_grad x d hd
+
+/-- the running sums and the reverse accumulation of the gradient -/
+theorem rotated_ellipsoid_hasDerivAt_line (x d : List ℝ) (hd : d.length = x.length) :
+    HasDerivAt (fun t : ℝ => rotF 0 (line x d t)) (dot (rotG 0 x) d) 0 := rot_grad x d hd
+
+theorem trid_hasDerivAt_line (x d : List ℝ) (hd : d.length = x.length) :
+    HasDerivAt (fun t : ℝ => tridF (line x d t)) (dot (tridG x) d) 0 := trid_grad x d hd
+
+/-- non-convex -/
+theorem rosenbrock_hasDerivAt_line (x d : List ℝ) (hd : d.length = x.length) :
+    HasDerivAt (fun t : ℝ => rosenbrockF (line x d t)) (dot (rosenbrockG x) d) 0 := rosenbrock_grad x d hd
+
+/-- non-convex -/
+theorem dixon_price_hasDerivAt_line (x d : List ℝ) (hd : d.length = x.length) :
+    HasDerivAt (fun t : ℝ => dixonF (line x d t)) (dot (dixonG x) d) 0 := dixon_grad x d hd
+
+/-- non-convex; any dimension (the code asks for a multiple of four; trailing coordinates do not enter value or gradient) -/
+theorem powell_hasDerivAt_line (x d : List ℝ) (hd : d.length = x.length) :
+    HasDerivAt (fun t : ℝ => powellF (line x d t)) (dot (powellG x) d) 0 := powell_grad x d hd
+
+/-- `x·(a + ½ A x)` with the returned gradient `a + A x`: the derivative exactly under the hypothesis that `A` is
+    self-adjoint (the constructor draws `A = I + R Rᵀ`); for a non-symmetric `A` the derivative is `a + ½(A + Aᵀ)x` -/
+theorem quadratic_hasDerivAt_line (a : List ℝ) (A : List (List ℝ)) (x d : List ℝ) (n : Nat)
+    (hA : A.length = n) (ha : a.length = n) (hx : x.length = n) (hd : d.length = n)
+    (hsym : ∀ u v : List ℝ, u.length = n → v.length = n → dot u (mulVec A v) = dot v (mulVec A u)) :
+    HasDerivAt (fun t : ℝ => quadraticF a A (line x d t)) (dot (quadraticG a A x) d) 0 :=
+  quadratic_grad a A x d n hA ha hx hd hsym
+
+theorem geometric_hasDerivAt_line (a : List ℝ) (A : List (List ℝ)) (x d : List ℝ) (ha : a.length = A.length)
+    (hrows : ∀ r ∈ A, r.length = x.length) (hd : d.length = x.length) :
+    HasDerivAt (fun t : ℝ => geomF a A (line x d t)) (dot (geomG a A x) d) 0 := geom_grad a A x d ha hrows hd
+
+/-- the smooth elastic-net prototypes (`α₁ = 0`, ids `<loss>+ridge[α₂]`): for EVERY kernel whose `kG` is the derivative
+    of `kV`, every data matrix, bias and targets -/
+theorem elastic_net_ridge_hasDerivAt_line (kV kG : ℝ → ℝ → ℝ) (hk : ∀ t o, HasDerivAt (fun o => kV t o) (kG t o) o)
+    (a2 : ℝ) (h2 : 0 ≤ a2) (A : List (List ℝ)) (b : ℝ) (t x d : List ℝ)
+    (hA : A.length = t.length) (hrows : ∀ r ∈ A, r.length = x.length) (hd : d.length = x.length) :
+    HasDerivAt (fun s : ℝ => enetF kV 0 a2 A b t (line x d s)) (dot (enetG kG 0 a2 A b t x) d) 0 :=
+  enet_ridge_grad_aux kV kG hk a2 h2 A b t x d hA hrows hd
+
+/-- the smooth kernels of elastic_net.h satisfy the hypothesis of `elastic_net_ridge_hasDerivAt_line` (the cauchy
+    kernel too, although `cauchy+ridge` does not declare itself smooth) -/
+theorem elastic_net_smooth_kernels :
+    (∀ t o : ℝ, HasDerivAt (fun o => enetMseV t o) (enetMseG t o) o) ∧
+    (∀ t o : ℝ, HasDerivAt (fun o => enetLogisticV t o) (enetLogisticG t o) o) ∧
+    (∀ t o : ℝ, HasDerivAt (fun o => enetCauchyV t o) (enetCauchyG t o) o) :=
+  ⟨enetMse_deriv, enetLogistic_deriv, enetCauchy_deriv⟩
+
+/-! ### losses declared smooth, as functions of the prediction vector (any number of outputs) -/
+
+/-- mse, cauchy, squared hinge (differentiable also on its kink), savage, tangent, logistic (with the `x < 1` switch as
+    coded), exponential: `loss_t::vgrad` is the gradient of `loss_t::value` -/
+theorem loss_hasDerivAt_line (k : Kind) (hk : smoothKind k = true) (a eps : ℝ) (t o d : List ℝ)
+    (ho : o.length = t.length) (hd : d.length = t.length) :
+    HasDerivAt (fun s : ℝ => value k a eps t (line o d s)) (dot (vgrad k a t o) d) 0 :=
+  loss_grad_aux k hk a eps t o d ho hd
+
+/-- class negative log-likelihood without the `ε` inside the logarithm, for ANY shift rule (the code shifts by the
+    maximal output, which moves with the point): soft-max minus the positive-target indicator is the gradient -/
+theorem classnll_shift_hasDerivAt_line (c : List ℝ → ℝ) (t o d : List ℝ) (hne : t ≠ [])
+    (ho : o.length = t.length) (hd : d.length = t.length) :
+    HasDerivAt (fun s : ℝ => classnllShift 0 (c (line o d s)) t (line o d s))
+      (dot (classnllGShift (c o) t o) d) 0 := classnll_shift_grad c t o d hne ho hd
+
+/-- `s-classnll` with `ε = 0`: `vgrad` is the gradient of `value` -/
+theorem classnll_hasDerivAt_line (a : ℝ) (t o d : List ℝ) (hne : t ≠ [])
+    (ho : o.length = t.length) (hd : d.length = t.length) :
+    HasDerivAt (fun s : ℝ => value .classnll a 0 t (line o d s)) (dot (vgrad .classnll a t o) d) 0 :=
+  classnll_grad_aux a t o d hne ho hd
+
+/-- `s-classnll` AS CODED (`ε` inside the logarithm of the value, none in the gradient, shift = maximal output): the
+    value lies within `log(1 + ε)` (≤ 2.3e-16) of the `ε = 0` value whose gradient the code returns exactly — the
+    returned gradient is not the exact derivative of the returned value, but of a function uniformly this close -/
+theorem classnll_value_eps_close (a eps : ℝ) (heps : 0 ≤ eps) (t o : List ℝ) (hne : o ≠ []) :
+    0 ≤ value .classnll a eps t o - value .classnll a 0 t o ∧
+    value .classnll a eps t o - value .classnll a 0 t o ≤ Real.log (1 + eps) := by
+  have hS := expSum_pos (maxCoeff o) o hne
+  have hS1 := expSum_ge_one (maxCoeff o) o (maxCoeff_mem o hne)
+  show 0 ≤ classnllV eps t o - classnllV 0 t o ∧ classnllV eps t o - classnllV 0 t o ≤ Real.log (1 + eps)
+  unfold classnllV classnllShift
+  simp only [tlog_eq, zero_add]
+  have h1 : Real.log (expSum (maxCoeff o) o) ≤ Real.log (eps + expSum (maxCoeff o) o) :=
+    Real.log_le_log hS (by linarith)
+  have h2 : Real.log (eps + expSum (maxCoeff o) o) ≤ Real.log (expSum (maxCoeff o) o) + Real.log (1 + eps) := by
+    rw [← Real.log_mul (ne_of_gt hS) (by linarith)]
+    apply Real.log_le_log (by linarith)
+    nlinarith
+  constructor <;> linarith
+
+/-! ### objects NOT declared smooth: the returned sub-gradient is the derivative wherever no kink / tie is hit
+
+  ("the (sub)gradient returned with a value is the derivative of that value wherever it is differentiable"): the side
+  conditions below say that the point `x` avoids the kinks of the formula; on a kink the code returns one sub-gradient
+  (the `X_subgrad` theorems). -/
+
+/-- mae: every output differs from its target -/
+theorem mae_hasDerivAt_line_off_kinks (a eps : ℝ) (t o d : List ℝ) (ho : o.length = t.length)
+    (hd : d.length = t.length) (hk : All2 (fun ti oi => oi ≠ ti) t o) :
+    HasDerivAt (fun s : ℝ => value .mae a eps t (line o d s)) (dot (vgrad .mae a t o) d) 0 :=
+  mae_grad_off a eps t o d ho hd hk
+
+/-- hinge: no output on the margin `t_i o_i = 1` -/
+theorem hinge_hasDerivAt_line_off_kinks (a eps : ℝ) (t o d : List ℝ) (ho : o.length = t.length)
+    (hd : d.length = t.length) (hk : All2 (fun ti oi => 1 - ti * oi ≠ 0) t o) :
+    HasDerivAt (fun s : ℝ => value .hinge a eps t (line o d s)) (dot (vgrad .hinge a t o) d) 0 :=
+  hinge_grad_off a eps t o d ho hd hk
+
+/-- pinball (any `alpha`): every output differs from its target -/
+theorem pinball_hasDerivAt_line_off_kinks (a eps : ℝ) (t o d : List ℝ) (ho : o.length = t.length)
+    (hd : d.length = t.length) (hk : All2 (fun ti oi => oi ≠ ti) t o) :
+    HasDerivAt (fun s : ℝ => value .pinball a eps t (line o d s)) (dot (vgrad .pinball a t o) d) 0 :=
+  pinball_grad_off a eps t o d ho hd hk
+
+/-- the elastic-net prototypes that do not declare themselves smooth (`lasso`, `elasticnet`, and `ridge` with the mae /
+    hinge kernel): at a point without zero coordinate — or any point when there is no `ℓ₁` term, `α₁ = 0` — whose outputs
+    avoid the kinks of the kernel (`P`; `True` for a smooth kernel) -/
+theorem elastic_net_hasDerivAt_line_off_kinks (P : ℝ → ℝ → Prop) (kV kG : ℝ → ℝ → ℝ)
+    (hk : ∀ t o, P t o → HasDerivAt (fun o => kV t o) (kG t o) o)
+    (a1 a2 : ℝ) (h2 : 0 ≤ a2) (A : List (List ℝ)) (b : ℝ) (t x d : List ℝ)
+    (hA : A.length = t.length) (hrows : ∀ r ∈ A, r.length = x.length) (hd : d.length = x.length)
+    (hP : All2 P t (enetOutputs A b x)) (hx0 : a1 = 0 ∨ ∀ v ∈ x, v ≠ 0) :
+    HasDerivAt (fun s : ℝ => enetF kV a1 a2 A b t (line x d s)) (dot (enetG kG a1 a2 A b t x) d) 0 :=
+  enet_grad_off_aux P kV kG hk a1 a2 h2 A b t x d hA hrows hd hP hx0
+
+/-- the two non-smooth kernels of elastic_net.h off their kinks (the smooth ones: `elastic_net_smooth_kernels`) -/
+theorem elastic_net_kernels_off_kinks :
+    (∀ t o : ℝ, o ≠ t → HasDerivAt (fun o => maeV t o) (maeG t o) o) ∧
+    (∀ t o : ℝ, 1 + -o * t ≠ 0 → HasDerivAt (fun o => enetHingeV t o) (enetHingeG t o) o) :=
+  ⟨mae_deriv_off, enetHinge_deriv_off⟩
+
+/-- chained LQ: no pair on the tie `v1 = v2` of its two pieces -/
+theorem chained_lq_hasDerivAt_line_off_ties (x d : List ℝ) (hd : d.length = x.length)
+    (hQ : AllPairs (fun a b => lqV1 a b ≠ lqV2 a b) x) :
+    HasDerivAt (fun t : ℝ => chainedLqF (line x d t)) (dot (chainedLqG x) d) 0 := chained_lq_grad_off x d hd hQ
+
+/-- chained CB3 I: in every pair one of the three pieces is the strict maximum -/
+theorem chained_cb3I_hasDerivAt_line_off_ties (x d : List ℝ) (hd : d.length = x.length)
+    (hQ : AllPairs (fun a b => strictMax3 (cbV1 a b) (cbV2 a b) (cbV3 a b)) x) :
+    HasDerivAt (fun t : ℝ => cb3IF (line x d t)) (dot (cb3IG x) d) 0 := cb3I_grad_off x d hd hQ
+
+/-- chained CB3 II: one of the three sums is the strict maximum -/
+theorem chained_cb3II_hasDerivAt_line_off_ties (x d : List ℝ) (hd : d.length = x.length)
+    (hs : strictMax3 (pairSum cbV1 x) (pairSum cbV2 x) (pairSum cbV3 x)) :
+    HasDerivAt (fun t : ℝ => cb3IIF (line x d t)) (dot (cb3IIG x) d) 0 := cb3II_grad_off x d hd hs
+
+/-- kinks: no coordinate on a kink of any row -/
+theorem kinks_hasDerivAt_line_off_kinks (K : List (List ℝ)) (off : ℝ) (x d : List ℝ) (hd : d.length = x.length)
+    (hK : ∀ r ∈ K, r.length = x.length) (hk : ∀ r ∈ K, All2 (fun k xi => xi ≠ k) r x) :
+    HasDerivAt (fun t : ℝ => kinksF K off (line x d t)) (dot (kinksG K x) d) 0 := kinks_grad_off K off x d hd hK hk
+
+/-- MAXQ: `x_idx²` is the strict maximum -/
+theorem maxq_hasDerivAt_line_off_ties (x d : List ℝ) (hd : d.length = x.length) (idx : Nat) (hidx : idx < x.length)
+    (hs : ∀ j, j < x.length → j ≠ idx → x.getD j 0 * x.getD j 0 < x.getD idx 0 * x.getD idx 0) :
+    HasDerivAt (fun t : ℝ => maxqF (line x d t)) (dot (maxqG x) d) 0 := maxq_grad_off x d hd idx hidx hs
+
+/-- MAXQUAD: the `idx`-th quadratic is the strict maximum (and its matrix acts symmetrically on `x`, `d`) -/
+theorem maxquad_hasDerivAt_line_off_ties (As : List (List (List ℝ))) (bs : List (List ℝ)) (x d : List ℝ)
+    (hl : As.length = bs.length) (hd : d.length = x.length)
+    (hshape : ∀ k, k < As.length → (As.getD k []).length = (bs.getD k []).length)
+    (idx : Nat) (hidx : idx < As.length)
+    (hsym : dot x (mulVec (As.getD idx []) d) = dot d (mulVec (As.getD idx []) x))
+    (hs : ∀ j, j < As.length → j ≠ idx → (mqVals As bs x).getD j 0 < (mqVals As bs x).getD idx 0) :
+    HasDerivAt (fun t : ℝ => maxquadF As bs (line x d t)) (dot (maxquadG As bs x) d) 0 :=
+  maxquad_grad_off As bs x d hl hd hshape idx hidx hsym hs
+
+/-- MAXHILB: `|W_idx·x|` is the strict maximum and not zero -/
+theorem maxhilb_hasDerivAt_line_off_ties (x d : List ℝ) (hd : d.length = x.length) (idx : Nat) (hidx : idx < x.length)
+    (hnz : dot x ((hilbert x.length : List (List ℝ)).getD idx []) ≠ 0)
+    (hs : ∀ j, j < x.length → j ≠ idx →
+      abs' (dot ((hilbert x.length : List (List ℝ)).getD j []) x) <
+        abs' (dot ((hilbert x.length : List (List ℝ)).getD idx []) x)) :
+    HasDerivAt (fun t : ℝ => maxhilbF (line x d t)) (dot (maxhilbG x) d) 0 := maxhilb_grad_off x d hd idx hidx hnz hs
+
+/-! ### constraint kinds (all declared smooth); the two functional kinds wrap a function: see the theorems above -/
+
+theorem ball_hasDerivAt_line (o : List ℝ) (r : ℝ) (x d : List ℝ) (hx : x.length = o.length) (hd : d.length = o.length) :
+    HasDerivAt (fun t : ℝ => ballF o r (line x d t)) (dot (ballG o x) d) 0 := ball_grad_aux o r x d hx hd
+
+theorem linear_hasDerivAt_line (q : List ℝ) (r : ℝ) (x d : List ℝ) (hd : d.length = x.length) :
+    HasDerivAt (fun t : ℝ => linearF q r (line x d t)) (dot (linearG q x) d) 0 := linear_grad_aux q r x d hd
+
+/-- quadratic (equality and inequality kinds) with the symmetrised gradient `½(P + Pᵀ)x + q` (78c1895): the derivative
+    for EVERY square `P`, symmetric or not, definite or not (with the former gradient `P x + q` this needs `P`
+    self-adjoint) -/
+theorem cquad_hasDerivAt_line (P : List (List ℝ)) (q : List ℝ) (r : ℝ) (x d : List ℝ) (n : Nat)
+    (hP : P.length = n) (hrows : ∀ r ∈ P, r.length = n) (hq : q.length = n) (hx : x.length = n) (hd : d.length = n) :
+    HasDerivAt (fun t : ℝ => cquadF P q r (line x d t)) (dot (cquadG P q x) d) 0 :=
+  cquad_grad_aux P q r x d n hP hrows hq hx hd
+
+theorem minimum_hasDerivAt_line (v : ℝ) (k : Nat) (x d : List ℝ) (hd : d.length = x.length) :
+    HasDerivAt (fun t : ℝ => minimumF v k (line x d t)) (dot (minimumG k x) d) 0 := minimum_grad_aux v k x d hd
+
+/-- `maximum_t` and `constant_t` -/
+theorem maximum_hasDerivAt_line (v : ℝ) (k : Nat) (x d : List ℝ) (hd : d.length = x.length) :
+    HasDerivAt (fun t : ℝ => maximumF v k (line x d t)) (dot (maximumG k x) d) 0 := maximum_grad_aux v k x d hd
+
+/-! ### composition: what the smooth ML objectives inherit from their loss -/
+
+/-- composition with an affine map `x ↦ b + A x`: the gradient `Aᵀ g_h(b + A x)` is the derivative when `g_h` is -/
+theorem affine_comp_hasDerivAt_line (h : List ℝ → ℝ) (gh : List ℝ → List ℝ) (A : List (List ℝ)) (b : List ℝ) (n : Nat)
+    (hrows : ∀ r ∈ A, r.length = n) (hb : b.length = A.length)
+    (hgh : ∀ u : List ℝ, u.length = A.length → (gh u).length = A.length)
+    (hh : ∀ u w : List ℝ, u.length = A.length → w.length = A.length →
+      HasDerivAt (fun t : ℝ => h (line u w t)) (dot (gh u) w) 0)
+    (x d : List ℝ) (hx : x.length = n) (hd : d.length = n) :
+    HasDerivAt (fun t : ℝ => h (vadd b (mulVec A (line x d t))))
+      (dot (tmulVec n A (gh (vadd b (mulVec A x)))) d) 0 :=
+  affine_comp_grad_aux h gh A b n hrows hb hgh hh x d hx hd
+
+theorem sum_hasDerivAt_line (f1 f2 : List ℝ → ℝ) (g1 g2 x d : List ℝ) (hg : g1.length = g2.length)
+    (h1 : HasDerivAt (fun t : ℝ => f1 (line x d t)) (dot g1 d) 0)
+    (h2 : HasDerivAt (fun t : ℝ => f2 (line x d t)) (dot g2 d) 0) :
+    HasDerivAt (fun t : ℝ => f1 (line x d t) + f2 (line x d t)) (dot (vadd g1 g2) d) 0 :=
+  sum_grad_aux f1 f2 g1 g2 x d hg h1 h2
+
+theorem ridge_hasDerivAt_line (f : List ℝ → ℝ) (g : List ℝ) (c : ℝ) (x d : List ℝ) (hd : d.length = x.length)
+    (hg : g.length = x.length) (h : HasDerivAt (fun t : ℝ => f (line x d t)) (dot g d) 0) :
+    HasDerivAt (fun t : ℝ => f (line x d t) + c / 2 * dot (line x d t) (line x d t))
+      (dot (vadd g (smul c x)) d) 0 := ridge_grad_aux f g c x d hd hg h
+
 /-! ## the declared flags (regenerated from the implementation on every run: `Gen/Flags.lean`) -/
 
 /-- objects whose convexity inequality is a theorem above (about their model) -/
 def provenConvex : List Obj := [
-  .fn_maxq, .fn_maxhilb, .fn_chained_lq, .fn_chained_cb3I, .fn_chained_cb3II, .fn_trid, .fn_kinks, .fn_sargan, .fn_sphere, .fn_zakharov,
+  .fn_maxq, .fn_maxquad, .fn_maxhilb, .fn_chained_lq, .fn_chained_cb3I, .fn_chained_cb3II, .fn_trid, .fn_kinks, .fn_sargan, .fn_sphere, .fn_zakharov,
   .fn_quadratic, .fn_exponential, .fn_chung_reynolds, .fn_axis_ellipsoid, .fn_schumer_steiglitz, .fn_rotated_ellipsoid,
   .fn_geometric_optimization,
   -- elastic-net prototypes: `elastic_net_subgrad` + `elastic_net_kernels`
@@ -414,14 +708,93 @@ def provenConvex : List Obj := [
   .ct_quadratic_eq_psd, .ct_quadratic_ineq_psd, .ct_functional_eq_sphere, .ct_functional_ineq_sphere]
 
 /-- objects flagged convex whose inequality is only tested by the search (with the reason) -/
-def testedOnly : List (Obj × String) := [
-  (.fn_maxquad, "max of K quadratic forms whose matrices are filled with exp/cos/sin formulas: not modelled")]
+def testedOnly : List (Obj × String) := []
 
 set_option maxRecDepth 100000 in
 /-- every object that DECLARES itself convex (any dimension of the dump) owns a convexity theorem or is on the explicit
     tested-only list: flipping a flag to `convex` in the source (e.g. rosenbrock) breaks this theorem -/
 theorem flags_covered :
     (rows.all fun r => !r.convex || provenConvex.contains r.obj || (testedOnly.map Prod.fst).contains r.obj) = true := by
+  decide
+
+/-- objects that DECLARE themselves smooth and own a "gradient = derivative along every line" theorem above (about
+    their model); the functional constraint kinds wrap sphere / rosenbrock -/
+def provenSmooth : List (Obj × String) := [
+  (.fn_trid, "trid_hasDerivAt_line"), (.fn_qing, "qing_hasDerivAt_line"), (.fn_cauchy, "cauchy_fn_hasDerivAt_line"),
+  (.fn_sargan, "sargan_hasDerivAt_line"), (.fn_powell, "powell_hasDerivAt_line"), (.fn_sphere, "sphere_hasDerivAt_line"),
+  (.fn_zakharov, "zakharov_hasDerivAt_line"), (.fn_quadratic, "quadratic_hasDerivAt_line"),
+  (.fn_rosenbrock, "rosenbrock_hasDerivAt_line"), (.fn_exponential, "exponential_fn_hasDerivAt_line"),
+  (.fn_dixon_price, "dixon_price_hasDerivAt_line"), (.fn_chung_reynolds, "chung_reynolds_hasDerivAt_line"),
+  (.fn_axis_ellipsoid, "axis_ellipsoid_hasDerivAt_line"), (.fn_styblinski_tang, "styblinski_tang_hasDerivAt_line"),
+  (.fn_schumer_steiglitz, "schumer_steiglitz_hasDerivAt_line"),
+  (.fn_rotated_ellipsoid, "rotated_ellipsoid_hasDerivAt_line"),
+  (.fn_geometric_optimization, "geometric_hasDerivAt_line"),
+  (.fn_mse_ridge_1, "elastic_net_ridge_hasDerivAt_line"), (.fn_mse_ridge_100, "elastic_net_ridge_hasDerivAt_line"),
+  (.fn_mse_ridge_10000, "elastic_net_ridge_hasDerivAt_line"), (.fn_mse_ridge_1e_06, "elastic_net_ridge_hasDerivAt_line"),
+  (.fn_logistic_ridge_1, "elastic_net_ridge_hasDerivAt_line"),
+  (.loss_mse, "loss_hasDerivAt_line"), (.loss_cauchy, "loss_hasDerivAt_line"),
+  (.loss_m_squared_hinge, "loss_hasDerivAt_line"), (.loss_s_squared_hinge, "loss_hasDerivAt_line"),
+  (.loss_m_savage, "loss_hasDerivAt_line"), (.loss_s_savage, "loss_hasDerivAt_line"),
+  (.loss_m_tangent, "loss_hasDerivAt_line"), (.loss_s_tangent, "loss_hasDerivAt_line"),
+  (.loss_m_logistic, "loss_hasDerivAt_line"), (.loss_s_logistic, "loss_hasDerivAt_line"),
+  (.loss_s_exponential, "loss_hasDerivAt_line"), (.loss_m_exponential, "loss_hasDerivAt_line"),
+  (.loss_s_classnll, "classnll_hasDerivAt_line + classnll_value_eps_close"),
+  (.ct_constant, "maximum_hasDerivAt_line"), (.ct_minimum, "minimum_hasDerivAt_line"),
+  (.ct_maximum, "maximum_hasDerivAt_line"), (.ct_ball_eq, "ball_hasDerivAt_line"), (.ct_ball_ineq, "ball_hasDerivAt_line"),
+  (.ct_linear_eq, "linear_hasDerivAt_line"), (.ct_linear_ineq, "linear_hasDerivAt_line"),
+  (.ct_quadratic_eq_psd, "cquad_hasDerivAt_line"), (.ct_quadratic_ineq_psd, "cquad_hasDerivAt_line"),
+  (.ct_quadratic_eq_indefinite, "cquad_hasDerivAt_line"), (.ct_quadratic_ineq_indefinite, "cquad_hasDerivAt_line"),
+  (.ct_functional_eq_sphere, "sphere_hasDerivAt_line"), (.ct_functional_ineq_sphere, "sphere_hasDerivAt_line"),
+  (.ct_functional_eq_rosenbrock, "rosenbrock_hasDerivAt_line"),
+  (.ct_functional_ineq_rosenbrock, "rosenbrock_hasDerivAt_line")]
+
+/-- objects flagged smooth whose gradient is only tested by difference quotients (with the reason) -/
+def testedOnlySmooth : List (Obj × String) := []
+
+set_option maxRecDepth 100000 in
+/-- every object that DECLARES itself smooth (any dimension of the dump) owns a derivative theorem or is on the explicit
+    tested-only list: a flag flipped to `smooth` in the source (e.g. of maxq or of a lasso prototype), or a new smooth
+    prototype, breaks this theorem -/
+theorem smooth_covered :
+    (rows.all fun r => !r.smooth || (provenSmooth.map Prod.fst).contains r.obj ||
+      (testedOnlySmooth.map Prod.fst).contains r.obj) = true := by
+  decide
+
+/-- objects NOT declared smooth that own a "sub-gradient = derivative off the kinks / ties" theorem (`cauchy+ridge`
+    is smooth in fact: `elastic_net_ridge_hasDerivAt_line` with the cauchy kernel of `elastic_net_smooth_kernels`) -/
+def provenOffKinks : List (Obj × String) := [
+  (.fn_maxq, "maxq_hasDerivAt_line_off_ties"), (.fn_maxquad, "maxquad_hasDerivAt_line_off_ties"), (.fn_maxhilb, "maxhilb_hasDerivAt_line_off_ties"),
+  (.fn_chained_lq, "chained_lq_hasDerivAt_line_off_ties"), (.fn_chained_cb3I, "chained_cb3I_hasDerivAt_line_off_ties"),
+  (.fn_chained_cb3II, "chained_cb3II_hasDerivAt_line_off_ties"), (.fn_kinks, "kinks_hasDerivAt_line_off_kinks"),
+  (.fn_mse_lasso_1, "elastic_net_hasDerivAt_line_off_kinks"), (.fn_mse_lasso_100, "elastic_net_hasDerivAt_line_off_kinks"),
+  (.fn_mse_lasso_10000, "elastic_net_hasDerivAt_line_off_kinks"),
+  (.fn_mse_lasso_1e_06, "elastic_net_hasDerivAt_line_off_kinks"),
+  (.fn_mse_elasticnet_1_1, "elastic_net_hasDerivAt_line_off_kinks"),
+  (.fn_mse_elasticnet_100_100, "elastic_net_hasDerivAt_line_off_kinks"),
+  (.fn_mse_elasticnet_10000_10000, "elastic_net_hasDerivAt_line_off_kinks"),
+  (.fn_mse_elasticnet_1e_06_1e_06, "elastic_net_hasDerivAt_line_off_kinks"),
+  (.fn_mae_ridge_1, "elastic_net_hasDerivAt_line_off_kinks"), (.fn_mae_lasso_1, "elastic_net_hasDerivAt_line_off_kinks"),
+  (.fn_mae_elasticnet_1_1, "elastic_net_hasDerivAt_line_off_kinks"),
+  (.fn_hinge_ridge_1, "elastic_net_hasDerivAt_line_off_kinks"), (.fn_hinge_lasso_1, "elastic_net_hasDerivAt_line_off_kinks"),
+  (.fn_hinge_elasticnet_1_1, "elastic_net_hasDerivAt_line_off_kinks"),
+  (.fn_cauchy_ridge_1, "elastic_net_ridge_hasDerivAt_line"), (.fn_cauchy_lasso_1, "elastic_net_hasDerivAt_line_off_kinks"),
+  (.fn_cauchy_elasticnet_1_1, "elastic_net_hasDerivAt_line_off_kinks"),
+  (.fn_logistic_lasso_1, "elastic_net_hasDerivAt_line_off_kinks"),
+  (.fn_logistic_elasticnet_1_1, "elastic_net_hasDerivAt_line_off_kinks"),
+  (.loss_mae, "mae_hasDerivAt_line_off_kinks"), (.loss_m_hinge, "hinge_hasDerivAt_line_off_kinks"),
+  (.loss_s_hinge, "hinge_hasDerivAt_line_off_kinks"), (.loss_pinball, "pinball_hasDerivAt_line_off_kinks")]
+
+/-- objects not declared smooth whose gradient is only tested by difference quotients (with the reason) -/
+def testedOnlyOffKinks : List (Obj × String) := []
+
+set_option maxRecDepth 100000 in
+/-- every registered object owns a derivative theorem (unconditional if it declares itself smooth, off its kinks / ties
+    otherwise) or is on one of the two explicit tested-only lists -/
+theorem gradient_covered :
+    (rows.all fun r =>
+      (provenSmooth.map Prod.fst).contains r.obj || (testedOnlySmooth.map Prod.fst).contains r.obj ||
+      (!r.smooth && ((provenOffKinks.map Prod.fst).contains r.obj ||
+        (testedOnlyOffKinks.map Prod.fst).contains r.obj))) = true := by
   decide
 
 /-- objects whose declared strong-convexity coefficient is part of a theorem above -/
@@ -517,5 +890,99 @@ example (c : ℚ) (hc : 0 < c) :
   simp only [List.getD_cons_zero, List.getD_cons_succ, vsub, dot, maeV, maeG, abs', sign']
   norm_num
   linarith
+
+-- smooth declarations exist, non-smooth ones too, and no non-smooth object is on the proven-smooth list by accident:
+-- maxq (declared non-smooth) is on neither list, so declaring it smooth makes `smooth_covered` false
+set_option maxRecDepth 100000 in
+example : (rows.any fun r => r.smooth) ∧ (rows.any fun r => !r.smooth) ∧
+    ¬ (provenSmooth.map Prod.fst).contains Obj.fn_maxq ∧ ¬ (testedOnlySmooth.map Prod.fst).contains Obj.fn_maxq := by
+  decide
+
+-- exactly the seven element-wise kinds of `loss_hasDerivAt_line` are smooth kinds (mae, hinge, pinball are not; classnll
+-- has its own theorem)
+example : ([Kind.mae, .mse, .cauchy, .hinge, .sqhinge, .savage, .tangent, .logistic, .exponential, .classnll,
+    .pinball].filter smoothKind) = [.mse, .cauchy, .sqhinge, .savage, .tangent, .logistic, .exponential] := by decide
+
+-- the line and the directional derivative are what they should be on a concrete input: rosenbrock at (0, 0) has the
+-- gradient (-2, 0); along d = (1, 1) the derivative of t ↦ 100 (t - t²)² + (t - 1)² at 0 is -2
+example : line [0, 0] [1, 1] (3 : ℝ) = [3, 3] ∧ dot (rosenbrockG ([0, 0] : List ℝ)) [1, 1] = -2 := by
+  constructor
+  · simp
+  · simp [rosenbrockG, pairGrad, rosenPieceG, dot]
+
+-- the hypotheses of `quadratic_hasDerivAt_line` / `geometric_hasDerivAt_line` are satisfiable (2x2 identity)
+example : ∃ A : List (List ℝ), A.length = 2 ∧ (∀ r ∈ A, r.length = 2) ∧
+    (∀ u v : List ℝ, u.length = 2 → v.length = 2 → dot u (mulVec A v) = dot v (mulVec A u)) := by
+  refine ⟨[[1, 0], [0, 1]], rfl, by simp, ?_⟩
+  intro u v hu hv
+  match u, v, hu, hv with
+  | [a, b], [c, d], _, _ => simp [mulVec, dot]; ring
+
+-- the symmetry hypothesis of `quadratic_hasDerivAt_line` is needed: for A = [[0, 1], [0, 0]], a = 0, x = (0, 1),
+-- d = (1, 0) the value along the line is t/2 (derivative 1/2) while the returned gradient gives (A x)·d = 1
+example : ¬ HasDerivAt (fun t : ℝ => quadraticF [0, 0] [[0, 1], [0, 0]] (line [0, 1] [1, 0] t))
+    (dot (quadraticG [0, 0] [[0, 1], [0, 0]] [0, 1]) [1, 0]) 0 := by
+  intro h
+  have e : (fun t : ℝ => quadraticF [0, 0] [[0, 1], [0, 0]] (line [0, 1] [1, 0] t)) = fun t => t * (1 / 2) := by
+    funext t; simp [quadraticF, mulVec, dot, vadd, smul]
+  have hv : dot (quadraticG ([0, 0] : List ℝ) [[0, 1], [0, 0]] [0, 1]) [1, 0] = 1 := by
+    simp [quadraticG, mulVec, dot, vadd]
+  rw [e, hv] at h
+  have h2 : HasDerivAt (fun t : ℝ => t * (1 / 2)) (1 / 2) 0 := by
+    simpa using (hasDerivAt_id' (0 : ℝ)).mul_const (1 / 2 : ℝ)
+  have := h.unique h2
+  norm_num at this
+
+-- `classnll_value_eps_close` is not vacuous and its lower bound is attained only at ε = 0: one output 0, ε = 1:
+-- log(1 + 1) - log(1) = log 2 > 0
+example : value .classnll (0 : ℝ) 1 [1] [0] - value .classnll (0 : ℝ) 0 [1] [0] = Real.log 2 := by
+  show classnllV (1 : ℝ) [1] [0] - classnllV (0 : ℝ) [1] [0] = Real.log 2
+  simp [classnllV, classnllShift, maxCoeff, expSum, posSum]
+  norm_num
+
+-- the side conditions of the off-kink theorems are satisfiable:
+-- mae / pinball / kinks (outputs differ from targets), hinge (off the margin)
+example : All2 (fun ti oi : ℝ => oi ≠ ti) [1, -1] [0, 0] ∧ All2 (fun ti oi : ℝ => 1 - ti * oi ≠ 0) [1, -1] [0, 3] := by
+  simp [All2]; norm_num
+-- chained LQ at (0, 0, 0): v1 = 0 ≠ v2 = -1 in both pairs
+example : AllPairs (fun a b : ℝ => lqV1 a b ≠ lqV2 a b) [0, 0, 0] := by
+  simp [AllPairs, lqV1, lqV2]
+-- chained CB3 at (0, 0): v1 = 0, v2 = 8, v3 = 2: the second piece is the strict maximum (CB3 I and II)
+example : AllPairs (fun a b : ℝ => strictMax3 (cbV1 a b) (cbV2 a b) (cbV3 a b)) [0, 0] ∧
+    strictMax3 (pairSum cbV1 ([0, 0] : List ℝ)) (pairSum cbV2 [0, 0]) (pairSum cbV3 [0, 0]) := by
+  have h : strictMax3 (cbV1 (0 : ℝ) 0) (cbV2 0 0) (cbV3 0 0) := by
+    right; left
+    simp only [cbV1, cbV2, cbV3, texp_eq]; norm_num
+  exact ⟨⟨h, trivial⟩, by simpa [pairSum] using h⟩
+-- MAXQ at (1, 2): the second coordinate is the strict maximum
+example : ∀ j, j < ([1, 2] : List ℝ).length → j ≠ 1 →
+    ([1, 2] : List ℝ).getD j 0 * ([1, 2] : List ℝ).getD j 0 < ([1, 2] : List ℝ).getD 1 0 * ([1, 2] : List ℝ).getD 1 0 := by
+  intro j hj hne
+  have : j = 0 := by simp at hj; omega
+  subst this; norm_num
+-- MAXHILB at (1, 1): W x = (3/2, 5/6): the first row is the strict maximum and not zero
+example : dot ([1, 1] : List ℝ) ((hilbert 2 : List (List ℝ)).getD 0 []) = 3 / 2 ∧
+    abs' (dot ((hilbert 2 : List (List ℝ)).getD 1 []) [1, 1]) < abs' (dot ((hilbert 2 : List (List ℝ)).getD 0 []) [1, 1]) := by
+  simp [hilbert, dot, abs', List.range, List.range.loop]; norm_num
+
+-- the hypotheses of `maxquad_subgrad` / `maxquad_hasDerivAt_line_off_ties` are satisfiable: two quadratics in two
+-- dimensions (identity, b = (0,0) and b = (1,1)); at x = (1, 1) the values are 2 and 0: the first is the strict maximum
+example : ∃ (As : List (List (List ℚ))) (bs : List (List ℚ)), As ≠ [] ∧ As.length = bs.length ∧
+    (∀ A ∈ As, A.length = 2 ∧
+      (∀ u v : List ℚ, u.length = 2 → v.length = 2 → dot u (mulVec A v) = dot v (mulVec A u)) ∧
+      (∀ d : List ℚ, d.length = 2 → 0 ≤ dot d (mulVec A d))) ∧ (∀ b ∈ bs, b.length = 2) ∧
+    mqVals As bs [1, 1] = [2, 0] := by
+  refine ⟨[[[1, 0], [0, 1]], [[1, 0], [0, 1]]], [[0, 0], [1, 1]], by simp, rfl, ?_, by simp, ?_⟩
+  · intro A hA
+    have hA' : A = [[1, 0], [0, 1]] := by simpa using hA
+    subst hA'
+    refine ⟨rfl, ?_, ?_⟩
+    · intro u v hu hv
+      match u, v, hu, hv with
+      | [a, b], [c, d], _, _ => simp [mulVec, dot]; ring
+    · intro d hd
+      match d, hd with
+      | [a, b], _ => simp [mulVec, dot]; nlinarith [mul_self_nonneg a, mul_self_nonneg b]
+  · simp [mqVals, mulVec, dot, vsub]; norm_num
 
 end NanoVerif.C06
